@@ -352,6 +352,31 @@ def corpus_trees():
     ]
 
 
+def corpus_x():
+    A = lambda d, x, reads=(): ('assign', list(reads), [(d, x)], 'plain')
+    R = lambda r, x: ('expr', [(r, x)])
+    IF = lambda body: ('if', [], body, [('pass',)], [])
+    return [
+        # F62: a binding before a conditional break, overwritten behind it, is read behind the loop
+        [A(1, 'x'), ('for', [], [(2, 'y')], [A(3, 'x'), IF([('break',)]), A(4, 'x')], [('pass',)]), R(10, 'x')],
+        # ... before a conditional continue, read at the top of the next trip
+        [A(1, 'x'), ('while', [], [R(10, 'x'), A(2, 'x'), IF([('continue',)]), A(3, 'x')], [('pass',)], [])],
+        # F62b: the exit sits in a with block, bindings follow it in the loop body
+        [A(1, 'a'), ('while', [(10, 'a')], [('with', [], [(2, 'a')], [('continue',)]), A(3, 'a')], [('pass',)], [])],
+        # break skips the else clause; a break in the else clause belongs to the outer loop
+        [A(1, 'x'), ('for', [], [(2, 'y')], [('for', [], [(3, 'z')], [A(4, 'x'), IF([('break',)])], [A(5, 'x'), IF([('break',)]), A(6, 'x')])], [R(10, 'x')]), R(11, 'x')],
+        # continue inside try/except (no finally), break inside a handler
+        [A(1, 'x'), ('while', [], [('try', [A(2, 'x'), IF([('continue',)]), A(3, 'x')], [([], None, [A(4, 'x'), IF([('break',)]), A(5, 'x')])], [('pass',)], [('pass',)], True, True), R(10, 'x')], [R(11, 'x')], []), R(12, 'x')],
+        # nested loops: an inner break / continue belongs to the INNER loop
+        [A(1, 'x'), ('for', [], [(2, 'y')], [A(3, 'x'), ('for', [], [(4, 'z')], [A(5, 'x'), IF([('break',)]), A(6, 'x')], [('pass',)]),
+                                              R(10, 'x'), A(7, 'x')], [('pass',)]), R(11, 'x')],
+        [A(1, 'x'), ('while', [], [A(2, 'x'), ('while', [(10, 'x')], [A(3, 'x'), IF([('continue',)]), A(4, 'x')], [('pass',)], []),
+                                   R(11, 'x'), A(5, 'x')], [R(12, 'x')], [])],
+        # return in a loop body, loop-carried binding behind it
+        [A(1, 'x'), ('for', [(10, 'x')], [(2, 'y')], [IF([('return',)]), A(3, 'x')], [('pass',)]), R(11, 'x')],
+    ]
+
+
 def corpus_trees_ext():
     """boundary programs OUTSIDE the stated domain of C02/C03 (a comprehension element reads the name its
     statement binds, defect F59): evaluated, failures reported as extended-domain failures"""
